@@ -2,6 +2,7 @@ package rules
 
 import (
 	"go/token"
+	"go/types"
 	"gverif/internal/load"
 	"sort"
 	"strings"
@@ -148,8 +149,26 @@ func (c *strLangCtx) lang(v ssa.Value, depth int) string {
 				switch f[i] {
 				case '%':
 					b.WriteString("%")
-				case 's', 'v', 'd', 'x':
-					if ai < len(vals) {
+				case 'd', 'x', 'X', 'o', 'b':
+					if ai < len(vals) && isIntegerValue(vals[ai]) {
+						ex := c.exact
+						c.lang(vals[ai], depth+1) // records the fields read
+						c.exact = ex
+						b.WriteString(map[byte]string{'d': `[0-9]+`, 'x': `[0-9a-f]+`, 'X': `[0-9A-F]+`, 'o': `[0-7]+`, 'b': `[01]+`}[f[i]])
+					} else if ai < len(vals) && (f[i] == 'd' || f[i] == 'x') {
+						b.WriteString("(?:" + c.lang(vals[ai], depth+1) + ")")
+					} else {
+						c.exact = false
+						b.WriteString(`(?s:.*)`)
+					}
+					ai++
+				case 's', 'v':
+					if ai < len(vals) && isIntegerValue(vals[ai]) {
+						ex := c.exact
+						c.lang(vals[ai], depth+1)
+						c.exact = ex
+						b.WriteString(`[0-9]+`)
+					} else if ai < len(vals) {
 						b.WriteString("(?:" + c.lang(vals[ai], depth+1) + ")")
 					} else {
 						c.exact = false
@@ -191,4 +210,14 @@ func (c *strLangCtx) lang(v ssa.Value, depth int) string {
 	}
 	c.exact = false
 	return `(?s:.*)`
+}
+
+// isIntegerValue: v (possibly boxed into an interface) has an integer type; like strconv.FormatInt above,
+// the value is taken to be a non-negative counter.
+func isIntegerValue(v ssa.Value) bool {
+	if mi, ok := v.(*ssa.MakeInterface); ok {
+		v = mi.X
+	}
+	b, ok := v.Type().Underlying().(*types.Basic)
+	return ok && b.Info()&types.IsInteger != 0
 }
